@@ -848,6 +848,34 @@ pub fn run_c14(cfg: &Cfg) -> i32 {
         .filter(|(k, (bi, _))| (*k as u64) % cfg.shards.max(1) == cfg.shard && (cfg!(feature = "full") || !matches!(bases[*bi].kind, Kind::Candidates | Kind::Installed)) && (!miri || k % 23 == 0))
         .map(|(_, c)| c)
         .collect();
+    // ... and every truncation point of every base (a message cut short at every offset)
+    let mut sweep = sweep;
+    if !miri {
+        let mut k = 0u64;
+        for (bi, b) in bases.iter().enumerate() {
+            if !cfg!(feature = "full") && matches!(b.kind, Kind::Candidates | Kind::Installed) {
+                continue;
+            }
+            let text = dom::serialise(&b.tree, &style_of(&[], b.kind));
+            let body_len = text.len().saturating_sub(if is_message(b.kind) { MARKER.len() } else { 0 });
+            // long free-text bases: every 7th offset is enough
+            let step = if body_len > 3_000 { 7 } else { 1 };
+            for cut in (1..body_len).step_by(step) {
+                k += 1;
+                if k % cfg.shards.max(1) != cfg.shard {
+                    continue;
+                }
+                if !text.is_char_boundary(cut) {
+                    continue;
+                }
+                let mut m = text.as_bytes()[..cut].to_vec();
+                if is_message(b.kind) {
+                    m.extend_from_slice(MARKER.as_bytes());
+                }
+                sweep.push((bi, m));
+            }
+        }
+    }
     let nsweep = sweep.len() as u64;
     for i in 0..n + nsweep {
         let idx = cfg.case_index(i);
@@ -865,7 +893,7 @@ pub fn run_c14(cfg: &Cfg) -> i32 {
             let (bi, m) = &sweep[i as usize];
             base = &bases[*bi];
             text = dom::serialise(&base.tree, &style_of(&[], base.kind));
-            (m.clone(), "numeric-leaf-sweep")
+            (m.clone(), "deterministic-sweep(numeric-leaves,truncations)")
         } else {
             mutate(&mut r, text.as_bytes(), other_text.as_bytes())
         };
